@@ -28,7 +28,7 @@ fn universe(full: bool) -> Vec<AQuad> {
     let preds: Vec<ATerm> = if full { vec![ex("p"), ATerm::b("b"), ATerm::var("v")] } else { vec![ex("p"), ATerm::b("b")] };
     // (qt3 = << ex:x _:b _:a >>: a blank node in the predicate position of a quoted triple)
     let qt3 = ATerm::triple(ex("x"), ATerm::b("b"), ATerm::b("a"));
-    let objects: Vec<ATerm> = if full { vec![ATerm::b("a"), ATerm::b("b"), ATerm::b("c"), ex("x"), ATerm::lit("l"), qt1(), qt2(), qt3, ATerm::var("v")] } else { vec![ATerm::b("a"), ATerm::b("c"), ex("x"), ATerm::lit("l"), qt2(), qt3] };
+    let objects: Vec<ATerm> = if full { vec![ATerm::b("a"), ATerm::b("b"), ATerm::b("c"), ex("x"), ATerm::lit("l"), ATerm::lang("l", "en"), qt1(), qt2(), qt3, ATerm::var("v")] } else { vec![ATerm::b("a"), ATerm::b("c"), ex("x"), ATerm::lit("l"), ATerm::lang("l", "en"), qt2(), qt3] };
     let graphs: Vec<Option<ATerm>> = vec![None, Some(ATerm::b("a")), Some(ex("x"))];
     let mut v = vec![];
     for g in &graphs {
@@ -96,6 +96,34 @@ fn iso_graph_call(a: &[AQuad], b: &[AQuad]) -> Result<bool, String> {
     }
 }
 
+/// the same graphs seen through dataset views (their iterators filter, so size hints are not exact):
+/// `a` as the named graph <gv> of a Vec dataset that also holds other quads, `b` as the partial union
+/// of two named graphs of another dataset
+fn iso_graph_view_call(a: &[AQuad], b: &[AQuad]) -> Result<bool, String> {
+    let gv = ex("gv").to_simple();
+    let gw = ex("gw").to_simple();
+    let mut da: Vec<Spog<ST>> = vec![([ex("u1").to_simple(), ex("p").to_simple(), ex("u2").to_simple()], None), ([ex("u1").to_simple(), ex("p").to_simple(), ex("u3").to_simple()], Some(gw.clone()))];
+    for q in a {
+        da.push((to_squad(q).0, Some(gv.clone())));
+    }
+    let mut db: Vec<Spog<ST>> = vec![([ex("u4").to_simple(), ex("p").to_simple(), ex("u5").to_simple()], None)];
+    for (i, q) in b.iter().enumerate() {
+        db.push((to_squad(q).0, Some(if i % 2 == 0 { gv.clone() } else { gw.clone() })));
+    }
+    let plain: Vec<[ST; 3]> = b.iter().map(|q| to_squad(q).0).collect();
+    match guarded(|| {
+        let va = da.graph(Some(gv.clone()));
+        let vb = db.partial_union_graph([Some(&gv), Some(&gw)]);
+        let r1 = isomorphic_graphs(&va, &plain).map_err(|e| e.to_string())?;
+        let r2 = isomorphic_graphs(&plain, &va).map_err(|e| e.to_string())?;
+        let r3 = isomorphic_graphs(&va, &vb).map_err(|e| e.to_string())?;
+        Ok::<bool, String>(r1 && r2 && r3)
+    }) {
+        Ok(r) => r,
+        Err(p) => Err(format!("panic: {p}")),
+    }
+}
+
 fn blank(t: &ATerm) -> ATerm {
     t.rename(&|_| "_".to_string())
 }
@@ -156,6 +184,12 @@ fn check_dataset(d: &[AQuad], st: &mut Stats, out: &mut Vec<Violation>) {
                     out.push(Violation::new(format!("false-negative:graph:{feat}"), format!("{:?} vs {:?}: {r:?}", quads_nq(d), quads_nq(&copy)), case.clone()));
                     return;
                 }
+                st.inc("validated");
+                let r = iso_graph_view_call(d, &copy);
+                if r != Ok(true) {
+                    out.push(Violation::new(format!("false-negative:graph-views:{feat}"), format!("{:?} vs {:?} seen through Dataset::graph / partial_union_graph views: {r:?}", quads_nq(d), quads_nq(&copy)), case.clone()));
+                    return;
+                }
             }
         }
         if !next_perm(&mut perm) {
@@ -174,6 +208,8 @@ fn check_dataset(d: &[AQuad], st: &mut Stats, out: &mut Vec<Violation>) {
             let Some(t) = t else { continue };
             let replaced = match t {
                 ATerm::Iri(_) => Some(ex("other")),
+                // a tagged literal: only the language tag changes; a plain one: another lexical form
+                ATerm::Lit(_, Some(_), lex) => Some(ATerm::lang(lex, "fr")),
                 ATerm::Lit(..) => Some(ATerm::lit("m")),
                 ATerm::Var(_) => Some(ATerm::var("w")),
                 _ => None,
@@ -303,7 +339,7 @@ pub fn run(tier: Tier) -> Report {
     }
     rep.stats.sample(json!({"quads": quads_nq(&datasets[datasets.len() / 2])}));
     rep.rule = format!(
-        "every generalized dataset of <= {} quads over a {}-quad universe (subjects _:a _:b ex:x <<_:a ex:p _:b>> <<ex:x ex:p <<_:a ex:p \"l\">>>>, predicates ex:p _:b ?v, objects incl. _:c, a literal, three quoted triples (one with a blank predicate) and a variable, graph names default / _:a / ex:x) and of <= {} quads over a {}-quad sub-universe; for each: all bijections of its blank node labels onto fresh labels and onto its own labels (swaps), reversed statement order, 4 ordered container pairs (Vec, HashSet, BTreeSet, FastDataset) in both argument orders, and isomorphic_graphs for default-graph datasets: must answer true; every single-edit neighbour (one ground atom replaced, one statement moved between the default graph and a named graph, one statement added/removed, two labels merged, one label split) that differs in size, blank node count or bnode-blanked statements must answer false in both argument orders; non-trivial = datasets with blank nodes",
+        "every generalized dataset of <= {} quads over a {}-quad universe (subjects _:a _:b ex:x <<_:a ex:p _:b>> <<ex:x ex:p <<_:a ex:p \"l\">>>>, predicates ex:p _:b ?v, objects incl. _:c, a plain and a language-tagged literal, three quoted triples (one with a blank predicate) and a variable, graph names default / _:a / ex:x) and of <= {} quads over a {}-quad sub-universe; for each: all bijections of its blank node labels onto fresh labels and onto its own labels (swaps), reversed statement order, 4 ordered container pairs (Vec, HashSet, BTreeSet, FastDataset) in both argument orders, and isomorphic_graphs for default-graph datasets (as Vec/BTreeSet graphs and through Dataset::graph and partial_union_graph views of datasets holding other quads): must answer true; every single-edit neighbour (one ground atom replaced - for a tagged literal only its language tag -, one statement moved between the default graph and a named graph, one statement added/removed, two labels merged, one label split) that differs in size, blank node count or bnode-blanked statements must answer false in both argument orders; non-trivial = datasets with blank nodes",
         tier.pick(1, 2),
         full.len(),
         tier.pick(2, 3),
